@@ -111,6 +111,24 @@ def template_def(rng, prof):
                    **{"with": {"items": lit([1, 2, 3]), "key": None, "concurrency": rng.choice([None, lit(2)])}}),
                  T("z")]
         feat = "tpl_items_count_join"
+    elif k == 9:  # a with-items task alone in a chain (the only thing that can fail the workflow)
+        tasks = [T("a", [tr(["w"])]),
+                 T("w", [tr(["z"], fn("succeeded"), [["r", fn("result")]])], input=[["it", fn("item")]],
+                   **{"with": {"items": rng.choice([lit([1, 2]), lit([1, 2, 3])]), "key": None,
+                               "concurrency": rng.choice([None, None, lit(1), lit(2)])}}),
+                 T("z")]
+        feat = "tpl_items_chain"
+    elif k == 10:  # a task with a retry policy reached on two routes (split, no join)
+        tasks = [T("a", [tr(["s"], None, [["va", lit(1)]])]), T("b", [tr(["s"], None, [["vb", lit(2)]])]),
+                 T("s", [tr(["z"], fn("succeeded"))],
+                   retry={"when": None, "count": lit(rng.randint(1, 2)), "delay": rng.choice([None, lit(1)])}),
+                 T("z")]
+        feat = "tpl_split_retry"
+    elif k == 11:  # a split reached on two routes, each route carrying its own published variable
+        tasks = [T("a", [tr(["s"], None, [["pa", lit(rng.randint(1, 50))]])]),
+                 T("b", [tr(["s"], None, [["pb", lit(rng.randint(1, 50))]])]),
+                 T("s", [tr(["t"], fn("succeeded"))]), T("t")]
+        feat = "tpl_split_routes"
     else:         # two publish-only transitions and a noop ending
         tasks = [T("a", [tr(["b", "c"])]), T("b", [tr(["noop"], None, [["x", lit(1)]])]),
                  T("c", [tr(["continue"], None, [["v1", fn("result")]]), tr(["continue"], None, [["v2", lit(7)]])])]
@@ -119,6 +137,8 @@ def template_def(rng, prof):
          "output": [["o1", ctx("x")]], "tasks": tasks}
     if feat == "tpl_cleanup_fail":
         d["output"].append(["o2", ctx("n")])
+    if feat == "tpl_split_routes":
+        d["output"] += [["opa", ctx("pa")], ["opb", ctx("pb")]]
     if feat == "tpl_publish_race":
         d["vars"].append(["v", lit("none")])
         d["output"].append(["ov", ctx("v")])
@@ -369,6 +389,7 @@ class HistProfile(object):
         self.p_next2 = 0.0
         self.p_lifecycle = 0.15     # requested/scheduled before running
         self.p_odd_terminal = 0.05  # timeout / abandoned / canceled as terminal report
+        self.p_item_canceling = 0.4  # an item action reports `canceling` before it stops
         self.p_task_pause = 0.0     # action reports pending/paused then resumes
         self.max_steps = 60
         self.fixed_outcomes = False
@@ -390,6 +411,7 @@ class History(object):
         self.ops, self.replies = [], []
         self.inflight = []   # (task, route, item or None)
         self.parked = []     # paused/pending actions
+        self.ack_cancel = set()
         self.acc = {}        # (task, route) -> accumulated item results
         self.outcome = {}
         self.defn = defn
@@ -484,6 +506,12 @@ class History(object):
             s = self.rng.choice(["pending", "paused"])
             self.report(key, s, None)
             self.parked.append((key, s))
+            return
+        if st == "canceling" and key[2] is not None and key not in self.ack_cancel and self.rng.random() < self.hp.p_item_canceling:
+            # the item's action acknowledges the cancellation and stops later
+            self.ack_cancel.add(key)
+            self.report(key, "canceling", None)
+            self.inflight.append(key)
             return
         if st in ("canceling", "canceled") and r < 0.6:
             self.report(key, "canceled", None)
